@@ -72,7 +72,7 @@ def gen_job(verif_seed, tier, index):
         job["bld_bending"] = [[g.choice(names), g.choice(names), g.choice(names), g.choice([1.0, 5.0, 20.0])]
                               for _ in range(g.randint(1, 3))]
     if g.random() < 0.15:
-        jobgen.add_coordinates(job, g, {"coord_modes": ["prefix", "meta_prefix", "res"]})
+        jobgen.add_coordinates(job, g, {"coord_modes": ["prefix", "meta_prefix", "res", "ign", "ign"]})
     if job.get("coord_text") is None and not job.get("bld_volumes") and g.random() < 0.1:
         jobgen.add_pre_variant(job, g, g.choice(["other_geometry", "other_graph"]))
     return job
